@@ -181,3 +181,16 @@ Proof.
 Qed.
 
 End Arith.
+
+(* ---------------------------------------------------------------- recorded disagreement with the documentation *)
+
+(* RTIME is a duration in seconds with fractions; INTEGER operands are seconds ([rtime_set_seconds_in_range]),
+   and so should FLOAT operands be: set var.rtime = var.float with 1.5 should give 1.500.  The code
+   converts the float to time.Duration directly (nanoseconds): 1.5 becomes 1 ns, printed 0.000.
+   Not repaired: interpreter/assign/assign_test.go pins this behaviour (known_findings.txt). *)
+Definition f_1_5 : float := S754_finite false 6755399441055744 (-52).
+Theorem rtime_set_float_refuted :
+  assign (fun _ => None) OpSet (VRTime 0) (mkOp (VFloat f_1_5 false false false) false) = AOk (VRTime 1) /\
+  f_to_int (fmul f_1_5 (f_of_int Second)) = 1500000000 /\
+  rtime_string 1 = map (fun c => n2b (Z.to_N c)) [48; 46; 48; 48; 48].
+Proof. repeat split; vm_compute; reflexivity. Qed.
